@@ -255,7 +255,7 @@ def gen(i, R, tier, force_mode=None):
             tree_ops.append({"op": "write", "path": p, "content": G.pick_content(rng, G.lang_of_path(p) or "py", 0.1, 0.3)})
             tree_ops.append({"op": "scan_inproc", "nonce": G.nonce(rng), "live": rng.random() < 0.5})
     else:
-        tree_ops, placed = G.base_tree(rng, 3, 10, p_bad=0.2, extras=0.3)
+        tree_ops, placed = G.base_tree(rng, 3, 10, p_bad=0.2, extras=0.3, weird=0.15)
     ops += tree_ops
     if rng.random() < 0.35:
         # configuration files below the root must have no effect, in whatever order directories are visited
